@@ -148,6 +148,7 @@ def jobs(tier):
     J.append(job(2, 2, 'max', copies=2, constraint='largest_le'))
     J.append(job(3, 2, 'min', copies=[2, 0, 1], pres='list')); J.append(job(3, 2, 'diff', copies=[0, 1, 2], pres='list')); J.append(job(2, 2, 'min', copies=[2, 1], pres='list'))
     J.append(job(3, 2, 'max', pres='list'))
+    J.append(job(3, 2, 'min', copies=[2, 1, 1])); J.append(job(3, 2, 'max', copies=[1, 2, 1])); J.append(job(3, 2, 'diff', copies=[2, 1, 2], order='asc'))
     for o in ('klargest:2', 'ksmallest:2'):
         J.append(job(3, 4, o, order='desc')); J.append(job(2, 4, o)); J.append(job(3, 3, o, order='desc'))
     J.append(job(3, 2, 'min', weights=[3, 3])); J.append(job(3, 2, 'diff', weights=[2, 2], constraint='smallest_ge'))
@@ -159,6 +160,9 @@ def jobs(tier):
             J.append(job(3, 3, o)); J.append(job(4, 2, o))
             J.append(job(3, 3, o, constraint='smallest_ge', order='desc'))
         J.append(job(3, 2, 'min', copies=2)); J.append(job(3, 3, 'min', weights=[1, 2, 3], order='desc'))
+        for cp in ([2, 1, 1], [1, 1, 2], [2, 2, 1], [1, 2, 0]):
+            for o in ('min', 'max', 'diff'):
+                J.append(job(3, 2, o, copies=cp)); J.append(job(3, 3, o, copies=cp, order='desc', mandatory=False))
         J.append(job(4, 2, 'min', weights=[2, 1])); J.append(job(4, 3, 'diff', order='desc', mandatory=False))
     return J
 
